@@ -403,6 +403,28 @@ def option_variants(r, n):
     return out
 
 
+def option_products(r):
+    """kind "option": every combination of the MAX / HRS options that select where the image starts
+    (skip, newsroom header, explicit rows, ignore-errors) on a well-formed file whose expected
+    output is known - an option must not change what another one means"""
+    out = []
+    for newsroom in (False, True):
+        for sk in (0, 1, 5):
+            for ignore in (False, True):
+                for explicit_rows in (False, True):
+                    c = build_max(r, newsroom=newsroom)
+                    data = bytes(r.randrange(1, 256) for _ in range(sk)) + c["data"]
+                    rows = c["rows"] if explicit_rows and not newsroom else None
+                    req = req_max(data, arte=c["arte"], newsroom=newsroom, cols=c["cols"], rows=rows, skip=sk, ignore=ignore)
+                    out.append({"fmt": "max", "kind": "option", "req": req, "data": data, "expect": c["expect"],
+                                "arte": c["arte"], "newsroom": newsroom, "cols": c["cols"], "rows": c["rows"]})
+    for sk in (0, 1, 5, 30):
+        c = build_hrs(r)
+        data = bytes(r.randrange(256) for _ in range(sk)) + c["data"]
+        out.append({"fmt": "hrs", "kind": "option", "req": req_hrs(data, c["w"], c["h"], sk), "data": data, "expect": c["expect"]})
+    return out
+
+
 def _const_pixels(n, v):
     return [v] * n
 
